@@ -152,7 +152,9 @@ class GPSData(BytesInterface):
         return GPSData(
             data_valid="V",
             greenwich_time=time(),
-            greenwich_date=date.today(),
+            # no date: zero() is the default gpsdata of LocationProtocol, so a date taken from the clock
+            # would end up in every parsed message that carries no gps data
+            greenwich_date=b"\x00" * 6,
             latitude=0,
             longitude=0,
             east_west="E",
